@@ -39,6 +39,8 @@ def main(argv=None):
         return 1 if acc.violations else 0
     specs = mod.shards(a.tier, seed)
     timeout = getattr(mod, "SHARD_TIMEOUT", {"quick": 240, "thorough": 1500})[a.tier]
+    from . import harvest
+    harvest.preload()          # constants of the tree under test, parsed once here and inherited by the forked shards
     opt_dump = os.environ.get("VERIF_OPT_PASS_DUMP")
     if opt_dump:
         # second pass of the same check inside an interpreter started with -O (assert statements stripped): a third of
